@@ -17,6 +17,52 @@ def unparse(n):
     return ast.unparse(n) if n is not None else ""
 
 
+class CanonCompare(ast.NodeTransformer):
+    """comparison normal form, applied to every parsed module so that rules see one spelling of `a < b` / `b > a`:
+    a numeric constant, a parameter of the enclosing function or a `self.<attr>` configuration value goes to the RIGHT
+    (`0 < len(x)` -> `len(x) > 0`, `tolerance >= d` -> `d <= tolerance`, `self.min_coverage <= c` -> `c >= self.min_coverage`)"""
+    FLIP = {ast.Lt: ast.Gt, ast.Gt: ast.Lt, ast.LtE: ast.GtE, ast.GtE: ast.LtE, ast.Eq: ast.Eq, ast.NotEq: ast.NotEq}
+
+    def __init__(self):
+        self.params = [set()]
+
+    def visit_FunctionDef(self, node):
+        a = node.args
+        ps = {x.arg for x in a.posonlyargs + a.args + a.kwonlyargs} - {"self", "cls"}
+        self.params.append(ps)
+        self.generic_visit(node)
+        self.params.pop()
+        return node
+
+    def _rank(self, e):
+        if isinstance(e, ast.Constant):
+            return 3
+        if isinstance(e, ast.UnaryOp) and isinstance(e.op, ast.USub) and isinstance(e.operand, ast.Constant):
+            return 3
+        if isinstance(e, ast.Attribute) and isinstance(e.value, ast.Name) and e.value.id == "self":
+            return 2
+        if isinstance(e, ast.Name) and e.id in self.params[-1]:
+            return 1
+        return 0
+
+    def visit_If(self, node):
+        """branch normal form: `if not c: B else: A` is read as `if c: A else: B` (plain if/else only, elif chains are left alone)"""
+        self.generic_visit(node)
+        while isinstance(node.test, ast.UnaryOp) and isinstance(node.test.op, ast.Not) and node.orelse \
+                and not (len(node.orelse) == 1 and isinstance(node.orelse[0], ast.If)):
+            node = ast.copy_location(ast.If(test=node.test.operand, body=node.orelse, orelse=node.body), node)
+        return node
+
+    def visit_Compare(self, node):
+        self.generic_visit(node)
+        if len(node.ops) == 1 and type(node.ops[0]) in self.FLIP:
+            l, r = node.left, node.comparators[0]
+            if self._rank(l) > self._rank(r):
+                new = ast.Compare(left=r, ops=[self.FLIP[type(node.ops[0])]()], comparators=[l])
+                return ast.copy_location(new, node)
+        return node
+
+
 def norm(n):
     """normalised text of a construct: formatting-independent key for findings"""
     return " ".join(ast.unparse(n).split())
@@ -48,7 +94,7 @@ class Model:
                         name = name[:-9]
                     text = open(p).read()
                     try:
-                        self.mods[name] = ast.parse(text, p)
+                        self.mods[name] = ast.fix_missing_locations(CanonCompare().visit(ast.parse(text, p)))
                     except SyntaxError as e:
                         raise AnalysisError(f"{p} does not parse: {e}")
                     self.paths[name] = p
